@@ -5,6 +5,7 @@ import (
 	"fmt"
 	"os"
 	"testing"
+	"time"
 )
 
 func TestVerifReplayCompare(t *testing.T) {
@@ -44,5 +45,42 @@ func TestVerifReplayCompare(t *testing.T) {
 	}
 	if failed > 0 {
 		t.Fatalf("%d replayed inputs violate the specification order", failed)
+	}
+}
+
+// Stored documents read back identical in type and value (C11): a time inside an array comes back as a
+// time.Time, like a time at the top level or inside an object.
+func TestVerifReplayTimeInArray(t *testing.T) {
+	now := time.Date(2024, 5, 6, 7, 8, 9, 0, time.UTC)
+	in := map[string]interface{}{
+		"top":    now,
+		"object": map[string]interface{}{"t": now},
+		"array":  []interface{}{now, map[string]interface{}{"t": now}, []interface{}{now}},
+	}
+	data, err := Encode(in)
+	if err != nil {
+		t.Fatal(err)
+	}
+	var out map[string]interface{}
+	if err := Decode(data, &out); err != nil {
+		t.Fatal(err)
+	}
+	failed := 0
+	check := func(where string, v interface{}) {
+		if tm, ok := v.(time.Time); !ok || !tm.Equal(now) {
+			fmt.Printf("REPLAY FAIL scenario: a time.Time stored %s is read back as %T (%v)\n", where, v, v)
+			failed++
+		} else {
+			fmt.Printf("REPLAY PASS scenario: a time.Time stored %s is read back as time.Time\n", where)
+		}
+	}
+	check("at the top level", out["top"])
+	check("inside an object", out["object"].(map[string]interface{})["t"])
+	arr := out["array"].([]interface{})
+	check("inside an array", arr[0])
+	check("inside an object inside an array", arr[1].(map[string]interface{})["t"])
+	check("inside an array inside an array", arr[2].([]interface{})[0])
+	if failed > 0 {
+		t.Fatal("times inside arrays are not unwrapped on read")
 	}
 }
